@@ -5,13 +5,14 @@ from harness.core import tb
 from harness.gen import systems
 from harness.props import _shared, c03
 
-PROOF_MODULE = ["OdeVerif.Proofs.C02", "OdeVerif.Proofs.C03", "OdeVerif.Proofs.C04b", "OdeVerif.Proofs.RefineGraph"]
+PROOF_MODULE = ["OdeVerif.Proofs.C02", "OdeVerif.Proofs.C03", "OdeVerif.Proofs.C04b", "OdeVerif.Proofs.RefineGraph", "OdeVerif.Proofs.PipelineGraph"]
 GENERATED = ['PyGraph']
 THEOREMS = ["OdeVerif.C02.classify_complete_lin", "OdeVerif.C02.classify_complete_const", "OdeVerif.C02.canonical_linear_no_nonlin",
             "OdeVerif.C02.parameterSymbols_spec", "OdeVerif.C02.analytic_sound_coeffs",
             "OdeVerif.C03.tractable_recognised", "OdeVerif.C03.propagate_greatest", "OdeVerif.C03.verdict_perm_invariant",
             "OdeVerif.C04b.expandRaw_sound", "OdeVerif.C04b.coeffOf_eq", "OdeVerif.C04b.linearCC_iff", "OdeVerif.C04b.spelling_invariant", "OdeVerif.C04b.den_ring_rules", "OdeVerif.C04b.den_sympow_add",
-            "OdeVerif.Refine.propagate_refines", "OdeVerif.Refine.verdict_refines"]
+            "OdeVerif.Refine.propagate_refines", "OdeVerif.Refine.verdict_refines",
+            "OdeVerif.PipelineSpec.collect_sound", "OdeVerif.PipelineSpec.analyse_spelling_invariant"]
 LEVEL = "proof"
 STYLES = ["expanded", "factored", "nested", "floats", "shuffled", "expanded"]
 
@@ -26,6 +27,8 @@ def gen_cases(ctx, ntruth, nspell):
         shape = systems.SHAPES[i % len(systems.SHAPES)]
         T = systems.make_truth(rng, shape)
         wp = rng.choice(["none", "all", "partial"])
+        # unusual-but-valid names (one renaming per ground truth, so that its spellings stay comparable)
+        mapping = systems.awkward_mapping(rng, [e["name"] for e in T.entries], []) if rng.random() < 0.25 else {}
         for k in range(nspell):
             order = list(range(len(T.entries)))
             if k % 2 == 1:
@@ -34,6 +37,13 @@ def gen_cases(ctx, ntruth, nspell):
             if k % 3 == 2:
                 # a documented option that must not change the classification (it only concerns simplify() of long expressions)
                 ind["options"] = {"expression_simplification_threshold": rng.choice([10, 40, 100])}
+            if k % 6 == 4:
+                # nor may the spelling of the derivative marker / of the step symbol (documented options)
+                ind.setdefault("options", {})["differential_order_symbol"] = rng.choice(["_D", "__dot", "__prime"])
+            if k % 6 == 1:
+                ind.setdefault("options", {})["output_timestep_symbol"] = rng.choice(["dt", "resolution"])
+            if mapping:
+                ind = systems.apply_mapping(ind, mapping)
             out.append({"indict": ind, "shape": shape, "truth_id": i, "style": STYLES[k % len(STYLES)], "stop": True, "pt_seed": rng.randrange(10 ** 9),
                         "check_numeric_rhs": False})
     # long factored / nested linear right-hand sides (string form well above the default simplification threshold of 1000)
@@ -76,7 +86,7 @@ def run(ctx, driver):
         want = res["truth"]["expected_analytic"]
         if want:
             ctx.note_nontrivial(json.dumps(case["indict"], sort_keys=True))
-        by_truth.setdefault(case["truth_id"], set()).add(tuple(sorted(got)))
+        by_truth.setdefault(case["truth_id"], set()).add(tuple(sorted(v.replace(res.get("marker", "__d"), "__d") for v in got)))
         missing = [v for v in want if v not in got]
         if missing:
             t = res["truth"]
@@ -94,6 +104,7 @@ def run(ctx, driver):
     ctx.sample({"truth": cases[-1]["truth_id"], "spellings": [c["indict"]["dynamics"][0]["expression"] for c in cases if c["truth_id"] == cases[-1]["truth_id"]][:6]})
     _shared.corr_split(ctx, driver, cases, results)
     _shared.corr_poly(ctx, driver, cases, results)
+    _shared.corr_pipeline(ctx, driver, cases, results)
     c03.check_graph_correspondence(ctx, driver, cases, results)
     ctx.assumptions += [
         "independence of the spelling rests on the contract that sympy's expand() yields a sum of monomial terms with like terms combined (validated on every case by the split correspondence and by the independent differential criterion); the Lean theorems start from that expanded form",
